@@ -381,3 +381,276 @@ def distributed_peer_lookup(eng: Engine, ck: Check, rule: str):
     ck.ob(rule, m, m.node, 'get_distributed_peer(connection) searches the registered peers FOR that connection (the connection test is part of the search, not a '
           'check of the first peer with the right name)', ok, f'returns not established as "the peer of this connection": {why}' if why else 'no peer is ever returned',
           construct='peer lookup by connection')
+
+
+# --------------------------------------------------------------------------- event bus: a failing listener never reaches the emitter
+def event_bus_emit_contains(eng: Engine, ck: Check, rule: str, relies: str):
+    """EventBus.emit contains every listener failure -- calling AND awaiting a listener happen inside the try that logs and goes on.
+    Library code awaits emit() in the middle of its own sequences (completing requests, the per-user tracking worker, state reports,
+    the session burst); application listeners run there."""
+    escm = eng.escape()
+    em_fn = eng.func('events.py', 'EventBus.emit')
+    ck.visited(em_fn)
+    leaked = sorted(escm.of(em_fn))
+    ck.ob(rule, em_fn, em_fn.node, 'EventBus.emit contains every listener failure: calling AND awaiting a listener happen inside the try that logs and goes on '
+          f'({relies})', not leaked, f'exceptions can leave emit(): {leaked} -- a listener (application code) that raises is thrown into the library code that emitted',
+          construct='emit contains listener failures')
+
+
+# --------------------------------------------------------------------------- objects that are registered and removed BY IDENTITY
+def identity_semantics(eng: Engine, ck: Check, rule: str, classes: list[tuple[str, str]], why: str):
+    """`xs.remove(x)`, `x in xs`, `a == b` on these objects mean "this very object": none of the classes (nor a repository base class)
+    defines __eq__ / __hash__ or is a dataclass with generated equality.  A value-based __eq__ makes list.remove() take out the FIRST
+    EQUAL element -- another live object -- and leave the one that was meant."""
+    for name, rel in classes:
+        ci = eng.cls(name, rel)
+        for c in eng.repo.mro(ci):
+            defines = [m for m in ('__eq__', '__hash__', '__ne__') if m in c.methods] + \
+                [unparse(t) for st in c.node.body if isinstance(st, ast.Assign) for t in st.targets if unparse(t) in ('__eq__', '__hash__')]
+            dc = [d for d in c.node.decorator_list if 'dataclass' in unparse(d)]
+            dc_eq = bool(dc) and not any(isinstance(d, ast.Call) and const(kw(d, 'eq')) is False for d in dc)
+            ck.ob(rule, c, c.node, f'{c.name} (base of {name}) compares by identity: {why}', not defines and not dc_eq,
+                  f'{c.name} defines {defines or "a dataclass-generated __eq__"}: equal is no longer identical; `in` / `list.remove()` / `==` pick the first EQUAL object',
+                  construct=f'{c.name} identity')
+
+
+# --------------------------------------------------------------------------- cancellation is never swallowed by a coroutine
+CANCEL_SWALLOW_OK = {
+    'utils.py:cancel_task': 'awaits the task it has just cancelled itself: that task\'s CancelledError is the expected outcome, not a cancellation of the caller',
+}
+
+
+def cancellation_propagates(eng: Engine, ck: Check, rule: str, relies: str):
+    """`task.cancel()` ends a library task: every coroutine of the package that catches CancelledError (or BaseException / bare except)
+    re-raises it on every path out of the handler.  Synchronous functions (done-callbacks reading `task.result()`) are not coroutines
+    and cannot be cancelled.  A swallowed cancellation consumes the request: the task goes on, and whoever cancelled it holds no
+    handle any more."""
+    import sa.cfg as cfgm
+
+    def always_raises(stmts) -> bool:
+        if not stmts:
+            return False
+        st = stmts[-1]
+        if isinstance(st, ast.Raise):
+            return True
+        if isinstance(st, ast.If):
+            return always_raises(st.body) and always_raises(st.orelse)
+        if isinstance(st, ast.Try):
+            if st.finalbody and always_raises(st.finalbody):
+                return True
+            return (always_raises(st.body) or always_raises(st.orelse)) and all(always_raises(h.body) for h in st.handlers)
+        if isinstance(st, (ast.With, ast.AsyncWith)):
+            return always_raises(st.body)
+        return False
+    n = 0
+    for fn in eng.repo.all_funcs():
+        if not fn.is_async:
+            continue
+        for t in [x for x in walk_local(fn.node) if isinstance(x, ast.Try)]:
+            for h in t.handlers:
+                if cfgm.handler_catches(h, 'cancel') != 'must':
+                    continue
+                n += 1
+                ok = always_raises(h.body) or f'{fn.module.rel}:{fn.qualname}' in CANCEL_SWALLOW_OK
+                ck.ob(rule, fn, h, f'{fn.qualname}: the handler that catches cancellation (`except {", ".join(handler_type_names(h)) or "<bare>"}`) re-raises it on every '
+                      f'path ({relies})', ok, 'the CancelledError is consumed: the cancelled task continues as if nothing happened, and the canceller '
+                      '(abort/pause, stop(), a watchdog stopping itself) has already dropped its handle', construct=f'{fn.qualname} cancellation re-raised at {alpha_key(h.type) if h.type is not None else "bare"}')
+    ck.floor(rule + '.cancel_handlers', n, 5)
+
+
+# --------------------------------------------------------------------------- objects tested for PRESENCE with `if x:` have no truth value of their own
+def presence_truthiness(eng: Engine, ck: Check, rule: str, classes: list[tuple[str, str]], why: str):
+    """`if request.timer:`, `if self._session and ..`, `if not peer.connection` mean "is there one": none of the classes (nor a repository base
+    class) defines __bool__ or __len__.  With a truth value of its own (a timer that is falsy until started, an empty container
+    class) the presence test silently takes the other branch."""
+    for name, rel in classes:
+        ci = eng.cls(name, rel)
+        for c in eng.repo.mro(ci):
+            defines = [m for m in ('__bool__', '__len__') if m in c.methods]
+            ck.ob(rule, c, c.node, f'{c.name} has no truth value of its own: {why}', not defines,
+                  f'{c.name} defines {defines}: `if <{name.lower()}>:` no longer means "there is one"', construct=f'{c.name} truthiness')
+
+
+# --------------------------------------------------------------------------- wire strings of legacy clients
+def string_decoding_tolerant(eng: Engine, ck: Check, rule: str, relies: str):
+    """string.deserialize decodes utf-8 and falls back to a single-byte code page for names written by legacy clients; without the
+    fall-back every message that carries such a name is dropped by the reader as undecodable."""
+    m = eng.func('protocol/primitives.py', 'string.deserialize')
+    ck.visited(m)
+    # the decoding may be written in place or in a helper of the repository that string.deserialize calls (utils.decode_string)
+    where = [m] + [cal for x in calls_in(m.node) for cal in eng.res.callees(x, m) if cal.cls is None or cal.cls is m.cls]
+    dec, ok = [], False
+    for f_ in where:
+        d_ = [x for x in calls_in(f_.node) if call_name(x) == 'decode' and x.args and isinstance(const(x.args[0]), str)]
+        dec += d_
+        utf = [x for x in d_ if const(x.args[0]).lower().replace('-', '') == 'utf8']
+        for x in utf:
+            t = protected_by_try_catching(eng, f_, x, 'UnicodeDecodeError', 'UnicodeError', 'ValueError')
+            if t is not None:
+                for h in t.handlers:
+                    if any(call_name(y) == 'decode' and y.args and const(y.args[0]) in ('cp1252', 'latin-1', 'latin1', 'iso-8859-1') for y in calls_in(h)):
+                        ok = True
+        if any(kw(x, 'errors') is not None and const(kw(x, 'errors')) in ('replace', 'ignore', 'backslashreplace', 'surrogateescape') for x in utf):
+            ok = True
+        if f_ is not m:
+            ck.visited(f_)
+    ck.ob(rule, m, m.node, f'string.deserialize falls back to a single-byte code page when the bytes are not utf-8 ({relies})', ok,
+          f'decode calls {[unparse(x) for x in dec]}: a name registered by a legacy client in a Windows code page makes the whole message undecodable', construct='string decode fallback')
+
+
+# --------------------------------------------------------------------------- enum members that guards distinguish are distinct
+def enum_members_distinct(eng: Engine, ck: Check, rule: str, enums: list[tuple[str, str]], why: str):
+    """Two members of an Enum / Flag with the same value are ONE member under two names (Python accepts that silently): a guard on the
+    one is a guard on the other.  Members written as a combination of other members (`IGNORE = A | B`) are meant as aliases."""
+    for name, rel in enums:
+        ci = eng.repo.find_cls(name, rel)
+        if ci is None:
+            raise AnalysisError(f'anchor class vanished: {rel}:{name}')
+        is_flag = any('Flag' in b for b in ci.bases)
+        vals: dict[str, object] = {}
+        primary: list[str] = []
+        last = None
+        for st in ci.node.body:
+            if not (isinstance(st, ast.Assign) and len(st.targets) == 1 and isinstance(st.targets[0], ast.Name)) or st.targets[0].id.startswith('_'):
+                continue
+            nm = st.targets[0].id
+            v = st.value
+            refs = [n.id for n in ast.walk(v) if isinstance(n, ast.Name) and n.id in vals]
+
+            def ev(e):
+                if isinstance(e, ast.Constant):
+                    return e.value
+                if isinstance(e, ast.Name) and e.id in vals:
+                    return vals[e.id]
+                if isinstance(e, ast.Call) and call_name(e) == 'auto':
+                    if is_flag:
+                        hi = max([x for x in vals.values() if isinstance(x, int)] + [0])
+                        return 1 if hi == 0 else 1 << hi.bit_length()
+                    return (last + 1) if isinstance(last, int) else 1
+                if isinstance(e, ast.BinOp) and isinstance(e.op, (ast.LShift, ast.BitOr, ast.BitAnd, ast.Add, ast.Sub, ast.Mult, ast.BitXor)):
+                    a, b = ev(e.left), ev(e.right)
+                    if isinstance(a, int) and isinstance(b, int):
+                        return {ast.LShift: a << b if b < 64 else None, ast.BitOr: a | b, ast.BitAnd: a & b, ast.Add: a + b, ast.Sub: a - b, ast.Mult: a * b,
+                                ast.BitXor: a ^ b}[type(e.op)]
+                if isinstance(e, ast.UnaryOp) and isinstance(e.op, (ast.Invert, ast.USub)):
+                    a = ev(e.operand)
+                    return (~a if isinstance(e.op, ast.Invert) else -a) if isinstance(a, int) else None
+                if isinstance(e, ast.Tuple):
+                    return tuple(ev(x) for x in e.elts)
+                return ('?', unparse(e))
+            val = ev(v)
+            vals[nm] = val
+            if isinstance(val, int):
+                last = val
+            if not refs:
+                primary.append(nm)
+        dup = {}
+        for nm in primary:
+            dup.setdefault(repr(vals[nm]), []).append(nm)
+        clash = {k: v for k, v in dup.items() if len(v) > 1}
+        ck.ob(rule, ci, ci.node, f'the members of {name} have distinct values ({why})', not clash and len(primary) >= 2,
+              f'same value under several names: {clash} -- the second name is an alias of the first; every test for the one is a test for the other',
+              construct=f'{name} members distinct')
+        if is_flag:
+            multi = [nm for nm in primary if isinstance(vals[nm], int) and vals[nm] != 0 and vals[nm] & (vals[nm] - 1)]
+            ck.ob(rule, ci, ci.node, f'every primary member of the flag {name} is a single bit', not multi, f'{multi} span several bits: `x & MEMBER` is true for unrelated members',
+                  construct=f'{name} single bits')
+
+
+# --------------------------------------------------------------------------- a background job is not ended by an exception of the library
+def job_raises_nothing_typed(eng: Engine, ck: Check, rule: str, rel: str, qualname: str, why: str):
+    """BackgroundTask.runner has no exception handler: whatever leaves the job function ends the task for good (its handle stays set, a
+    later start() does not revive it).  No exception class of the repository / no typed builtin can leave the job (the typed
+    exception-escape analysis; '*' = an exception of unknown class from a call the analysis does not see into, is not counted)."""
+    f = eng.func(rel, qualname)
+    ck.visited(f)
+    typed = sorted(t for t in eng.escape().of(f) if t not in ('*', '<cancel>'))
+    ck.ob(rule, f, f.node, f'no typed exception can leave {qualname} ({why})', not typed,
+          f'{typed} can propagate out of the job: BackgroundTask.runner does not catch it, the task ends and is never restarted', construct=f'{qualname} raises nothing typed')
+
+
+# --------------------------------------------------------------------------- network: which connections may be re-used for sending
+def active_connection_definition(eng: Engine, ck: Check, rule: str, relies: str):
+    """get_active_peer_connections returns the connections of that user and type that are CONNECTED and ESTABLISHED -- nothing that is
+    connecting, closing or closed (send_message on a closing connection logs and returns: the message is silently not sent)."""
+    m = eng.func(NET, 'Network.get_active_peer_connections')
+    ck.visited(m)
+    keeps = collected_returns(eng, m)
+    ok = bool(keeps)
+    detail = []
+    for conds, elt in keeps:
+        st = {(unparse(cmp_atom(e)[1]).split('.')[-1], frozenset(enum_members_in(cmp_atom(e)[2])), pol) for e, pol in conds if cmp_atom(e) and cmp_atom(e)[0] in ('eq', 'is', 'in')}
+        good = ('state', frozenset({'CONNECTED'}), True) in st and ('connection_state', frozenset({'ESTABLISHED'}), True) in st
+        ok = ok and good
+        detail.append(sorted((a, sorted(b), c) for a, b, c in st))
+    ck.ob(rule, m, m.node, f'an active peer connection is one whose state is CONNECTED and whose connection_state is ESTABLISHED ({relies})', ok,
+          f'kept under {detail}: a connection that is CLOSING (or not yet connected) is handed out; send_message() on it logs and returns without sending',
+          construct='active connection definition')
+
+
+def collected_returns(eng: Engine, fn: FuncInfo) -> list:
+    """[(conditions, element)] for a function that returns a filtered selection: `return [x for x in XS if C]` or an append loop."""
+    out = []
+    for r in [n for n in walk_local(fn.node) if isinstance(n, ast.Return) and n.value is not None]:
+        v = expand_aliases(fn, r.value)
+        if isinstance(v, (ast.ListComp, ast.GeneratorExp, ast.SetComp)) and len(v.generators) == 1:
+            out.append(([a for i_ in v.generators[0].ifs for a in split_conj(i_, True)], v.elt))
+        elif isinstance(r.value, ast.Name):
+            for c in collected(eng, fn, r.value.id):
+                out.append((c['conds'], c['elt']))
+    return out
+
+
+# --------------------------------------------------------------------------- transfer states: what an operation of a state really runs
+def state_operation(eng: Engine, ci: ClassInfo, op: str) -> Optional[FuncInfo]:
+    """The function that runs for `<state object>.op()`: the class's own method, a class-level alias (`queue = FailedState.queue`),
+    or the inherited one."""
+    repo = eng.repo
+    for c in repo.mro(ci):
+        for st in c.node.body:
+            if isinstance(st, ast.Assign) and len(st.targets) == 1 and isinstance(st.targets[0], ast.Name) and st.targets[0].id == op and \
+                    isinstance(st.value, (ast.Attribute, ast.Name)):
+                ref = st.value.attr if isinstance(st.value, ast.Attribute) else st.value.id
+                if isinstance(st.value, ast.Attribute) and isinstance(st.value.value, ast.Name):
+                    oc = repo.find_cls(st.value.value.id, TSTATE)
+                    if oc is not None:
+                        t = next((x.methods[ref] for x in repo.mro(oc) if ref in x.methods), None)
+                        if t is not None:
+                            return t
+                t = next((x.methods[ref] for x in repo.mro(c) if ref in x.methods), None)
+                if t is not None:
+                    return t
+        if op in c.methods:
+            return c.methods[op]
+    return None
+
+
+def requeue_forgets_local_file(eng: Engine, ck: Check, rule: str):
+    """A download that is queued again from ABORTED or COMPLETE starts over: its progress and its local path are forgotten
+    (`reset_progress_vars()`, `reset_local_vars()` for downloads) before the transition.  Every abort removes the local file, but the
+    path is cleared only once the (suspending) removal has finished; a re-queue must not rely on that -- a stale path is used as it
+    is by the next attempt (offset = size of whatever file has that name now, opened in append mode)."""
+    from .c03 import state_classes
+    states = state_classes(eng)
+    for val in ('ABORTED', 'COMPLETE'):
+        ci = states[val]
+        m = state_operation(eng, ci, 'queue')
+        if m is None:
+            raise AnalysisError(f'{ci.name}.queue not found')
+        ck.visited(m)
+        got = {}
+        for nm in ('reset_local_vars', 'reset_progress_vars'):
+            calls = [x for x in calls_on(m.node, nm) if unparse(x.func.value) == 'self.transfer']
+            ok = False
+            for x in calls:
+                gs = [(unparse(e), pol) for e, pol, _ in eng.guards_at(m, x)]
+                if all((g == 'self.transfer.is_download()' and pol) or (g == 'self.transfer.is_upload()' and not pol) for g, pol in gs):
+                    ok = True
+            got[nm] = ok
+        c = eng.cfg(m)
+        trs = [n for x in calls_on(m.node, 'transition') for n in c.nodes_for(x)]
+        before = all(any(n2.id < t.id for x in calls_on(m.node, nm) for n2 in c.nodes_for(x)) for nm in got for t in trs) if trs and all(got.values()) else False
+        ck.ob(rule, m, m.node, f'{ci.name}.queue() (the function that runs for it: {m.qualname}) forgets the local path and the progress of a download before it '
+              'queues it again', all(got.values()) and before,
+              f'{ {k: v for k, v in got.items()} }: the re-queued download keeps its old local_path; if the file behind it was removed (abort) or replaced meanwhile, '
+              'the next attempt resumes into / appends to a file that is not its own', construct=f'{val}.queue forgets local file')
